@@ -151,6 +151,14 @@ static void one_case(char* line) {
         case 'm': strcpy(rout, strstr(rbuf, argb) ? "true" : "false"); strcpy(out, mem(s, $S(argb)) ? "true" : "false"); break;
         case 'k': strcpy(rout, sgn(strcmp(rbuf, argb))); strcpy(out, sgn(cmp(s, $S(argb)))); break;
         case 'e': strcpy(rout, strcmp(rbuf, argb) == 0 ? "true" : "false"); strcpy(out, eq(s, $S(argb)) ? "true" : "false"); break;
+        /* the String itself as the argument; the reference works on a copy of the value */
+        case 'A': assign(s, s); break;
+        case 'C': strcpy(tmpb, rbuf); strcat(rbuf, tmpb); concat(s, s); break;
+        case 'P': strcpy(tmpb, rbuf); strcat(rbuf, tmpb); append(s, s); break;
+        case 'R': rbuf[0] = 0; rem(s, s); break;
+        case 'M': strcpy(rout, "true"); strcpy(out, mem(s, s) ? "true" : "false"); break;
+        case 'K': strcpy(rout, "eq"); strcpy(out, sgn(cmp(s, s))); break;
+        case 'E': strcpy(rout, "true"); strcpy(out, eq(s, s) ? "true" : "false"); break;
         case 'l': snprintf(rout, sizeof rout, "n%zu", strlen(rbuf)); snprintf(out, sizeof out, "n%zu", len(s)); break;
         case 'h': snprintf(rout, sizeof rout, "h%" PRIu64, hash_data(rbuf, strlen(rbuf))); snprintf(out, sizeof out, "h%" PRIu64, hash(s)); break;
         case 's': { char* c = c_str(s); size_t n = strlen(c);
